@@ -1,0 +1,44 @@
+// Verification hooks (compiled only with `--cfg pest_parser_pest_verif`).
+//
+// Named observation points in front of the linearization points of the controller / parser-thread
+// protocol. `point` calls an installed hook (a gate of an external schedule replayer) or does
+// nothing; it changes no state of the debugger.
+
+//! Observation points for model-based conformance checking.
+
+use std::sync::{Arc, Mutex};
+
+/// A hook called with the name of the point that is about to be passed.
+pub type Hook = Arc<dyn Fn(&'static str) + Send + Sync>;
+
+static HOOK: Mutex<Option<Hook>> = Mutex::new(None);
+
+/// Installs (or removes) the hook.
+pub fn set_hook(hook: Option<Hook>) {
+    *HOOK.lock().unwrap_or_else(|e| e.into_inner()) = hook;
+}
+
+pub(crate) fn point(name: &'static str) {
+    let hook = HOOK.lock().unwrap_or_else(|e| e.into_inner()).clone();
+    if let Some(hook) = hook {
+        hook(name);
+    }
+}
+
+/// A sender whose `send` passes the named point first (so that a point can sit in front of a
+/// `send` that is an expression of a match arm without rewriting that line).
+pub(crate) struct GatedSender<T> {
+    inner: std::sync::mpsc::SyncSender<T>,
+    name: &'static str,
+}
+
+impl<T> GatedSender<T> {
+    pub(crate) fn new(inner: std::sync::mpsc::SyncSender<T>, name: &'static str) -> Self {
+        GatedSender { inner, name }
+    }
+
+    pub(crate) fn send(&self, t: T) -> Result<(), std::sync::mpsc::SendError<T>> {
+        point(self.name);
+        self.inner.send(t)
+    }
+}
